@@ -1,7 +1,8 @@
 """C03 - StepMania writing: bounded stand-in.
 
-In-memory mapsets (read from generated files, built list by list the way the converters do, optionally after
-`rate`, with `selectable` False / True) are written by the REAL `SMMapSet.write`; the text is interpreted by
+In-memory mapsets (read from generated files, built list by list the way the converters do, made by the real
+osu / Quaver / BMS -> SM converters from source charts built in memory, optionally after `rate`, with `selectable`
+False / True) are written by the REAL `SMMapSet.write`; the text is interpreted by
 `den_sm` (contracts/C02_bounded.py: the independent exact-rational .sm interpreter) and compared with the
 in-memory mapset as it was before writing.
 
@@ -27,6 +28,14 @@ Clause ids (`what`):
                                          precision regime for them; their #BPMS beats are written with two decimals)
   write_file_equals_write                write_file stores exactly write()
   rated_offset_is_first_tempo_point      ms.rate(r) keeps the domain's `#OFFSET == first tempo point`
+  write_leaves_mapset_unchanged          after write() the mapset holds what it held before (header, charts, objects, tempo)
+  second_write_denotes_the_mapset        a second write() of the same mapset (in a part of the cases after ANOTHER mapset has been
+                                         built and written) again denotes the mapset: no clause fails on the second text that
+                                         held on the first
+  header_read_back_colon.<field>         a header text holding a ':' (`Re:Zero`) is read back unchanged - kept apart from
+                                         header_read_back.<field> (plain text, non-ASCII, tab / NBSP / ideographic space, '#', '=', ',')
+A chart without any object is written with an empty data field; StepMania reads that as a chart without rows, so `den_sm`'s
+"a measure has 4k > 0 rows" is not applied to such a chart (its data is read as one empty measure).
 Time clauses of rated mapsets carry the suffix `.rate` so the consequences of an unscaled #OFFSET stay apart.
 """
 from __future__ import annotations
@@ -69,7 +78,21 @@ SAMPLE_MS = (0.0, 1500.0, 68502.0, 297853.0, 10.0, 26000.0)
 # object positions inside a beat: the usual ones, and ones that force a measure past 384 rows when mixed
 COARSE = (1, 2, 3, 4, 6, 8, 12, 16, 24, 48)
 FINE = (5, 7, 9, 32, 64, 96)
+ODD = (5, 7, 9, 11, 13, 15, 19, 21, 23)
 MIN_GAP = Fraction(1, 48)  # between two objects of one column (so that no two share a written cell)
+# times with sub-millisecond digits, hours into the audio, far before it
+T0_EXTRA = ("635.25", "-0.375", "0.001", "3600000", "10000000.125", "-250000.5")
+SAMPLE_EXTRA = (1234.567, 0.5, 3599999.25)
+# header text the format can carry (no ';', no '//', no leading / trailing blanks) beyond C02's pool
+TEXT_EXTRA = ("take #2", "a\tb", "a\u3000b", "a\u00a0b", "\uff5ewave\u301c", "x=1", "\u00c9\u00e9 \u591c\u306b\u99c6\u3051\u308b", "#1", "100% (a,b)")
+TEXT_COLON = ("Re:Zero", "12:30 mix", "a:b:c")
+DESC_EXTRA = ("\u591c Mix", "a\u3000b", "#2 (hard)")
+# tempos whose quarter beats last a whole number of ms (int-typed charts)
+BPM_INT = ("60", "120", "150", "200", "100", "75", "50", "300")
+T0_INT = ("0", "-1118", "635", "500", "-2250", "3600000")
+CONVERT_SOURCES = ("osu", "qua", "bms")
+KEYS_TYPE = {4: "dance-single", 8: "dance-double", 6: "dance-solo", 3: "dance-threepanel", 7: "kb7-single"}
+LABELS = ("default", "default", "reversed", "gappy", "permuted")
 
 # ============================================================================= in-memory mapsets
 
@@ -86,41 +109,56 @@ def snapshot(ms):
     )
 
 
-def gen_built(rng):
+def gen_built(rng, integral=False, convert=None):
     """Spec of a mapset built list by list: shared tempo list (on measure lines, or anywhere on the grid), objects of
     every kind at positions `segment start + k/d` beats, leading and intermediate empty measures, measures that need
-    more than 384 rows."""
+    more than 384 rows; charts without any object; rows of every list in any order and under any row labels; header
+    attributes left at their defaults.  `integral`: every time is a whole number of ms (the lists are then built from
+    python ints: int64 columns).  `convert`: the spec of a source chart for a *ToSM converter (one chart, hits and
+    holds, its highest column in use)."""
     on_measure = rng.random() < 0.5
-    n_charts = rng.choice((1, 1, 2))
+    n_charts = 1 if convert else rng.choice((1, 1, 2, 3))
     n_meas = rng.randrange(2, 8)
     n_t = min(rng.randrange(1, 5), n_meas)
+    coarse = (1, 2, 4) if integral else COARSE
     starts = {Fraction(0)}
     while len(starts) < n_t:
         if on_measure:
             starts.add(Fraction(4 * rng.randrange(1, n_meas + 1)))
         else:
-            starts.add(Fraction(rng.randrange(1, 4 * n_meas * 48), rng.choice((1, 2, 3, 4, 6, 12, 16, 48))) % (4 * n_meas) or Fraction(2))
+            starts.add(Fraction(rng.randrange(1, 4 * n_meas * 48), rng.choice((1, 2, 4) if integral else (1, 2, 3, 4, 6, 12, 16, 48))) % (4 * n_meas) or Fraction(2))
+    if integral:
+        starts = {Fraction(floor(b * 4), 4) for b in starts}
     starts = sorted(starts)
     # "contrast": strongly different neighbouring tempos and an object shortly after every change
-    contrast = (not on_measure) and rng.random() < 0.4
+    contrast = (not on_measure) and (not integral) and rng.random() < 0.4
     tempo, prev = [], None
     for i, b in enumerate(starts):
-        v = ("60", "333")[i % 2] if contrast else rng.choice([x for x in BPM_POOL if x != prev])
+        v = ("60", "333")[i % 2] if contrast else rng.choice([x for x in (BPM_INT if integral else BPM_POOL) if x != prev])
         tempo.append([str(b), v])
         prev = v
     charts = []
     for _ in range(n_charts):
-        typ = rng.choice(WRITE_TYPES)
+        typ = rng.choice(sorted(KEYS_TYPE.values()) if convert else WRITE_TYPES)
         keys = SM_KEYS[typ]
-        lead = rng.choice((0, 0, 1, 2, 3))
+        lead = 0 if convert == "qua" else rng.choice((0, 0, 1, 2, 3))
         used = sorted(rng.sample(range(lead, lead + n_meas), rng.randrange(1, min(4, n_meas) + 1)))
         if contrast:
             used = sorted(set(used) | {floor(b / 4) for b in starts[1:]})
         free_from = [Fraction(0)] * keys
         objs = []
+        if convert == "qua":  # QuaToSM takes #OFFSET from the first object: the domain wants it on the first tempo point
+            objs.append(["hits", 0, "0", "0"])
+            free_from[0] = MIN_GAP
         for m in used:
-            fine = rng.random() < 0.35
-            dens = (COARSE + FINE) if fine else COARSE
+            r_m = rng.random()
+            fine = (not integral) and r_m < 0.35
+            dens = (coarse + FINE) if fine else coarse
+            odd_mode = (not integral) and 0.35 <= r_m < 0.55
+            if odd_mode:
+                # odd denominators that still fit one measure of <= 384 rows (row = num * rows / den must come out exact)
+                odd = rng.choice(ODD)
+                dens = (odd, odd, rng.choice([c for c in (1, 2, 3, 4, 6, 8, 12) if 4 * odd * c // gcd(odd, c) <= 384]))
             cand = set()
             for _k in range(rng.randrange(2, 9)):
                 d = rng.choice(FINE if fine and rng.random() < 0.6 else dens)
@@ -135,13 +173,13 @@ def gen_built(rng):
                 cols = [c for c in range(keys) if free_from[c] <= p]
                 rng.shuffle(cols)
                 for c in cols[: 1 + (rng.random() < 0.25)]:
-                    kind = rng.choice(("hits", "hits", "holds", "holds", "rolls", "mines", "lifts", "fakes", "keysounds"))
+                    kind = rng.choice(("hits", "holds") if convert else ("hits", "hits", "holds", "holds", "rolls", "mines", "lifts", "fakes", "keysounds"))
                     ln = Fraction(0)
                     if kind in ("holds", "rolls"):
                         # the tail is also placed at `its segment's start + k/d`
                         for _try in range(6):
                             rough = p + Fraction(rng.randrange(1, 6 * 48), 48)
-                            d2 = rng.choice(FINE if fine and rng.random() < 0.5 else COARSE)
+                            d2 = rng.choice(FINE if fine and rng.random() < 0.5 else (dens if odd_mode else coarse))
                             seg_t = max(s for s in starts if s <= rough)
                             tail = seg_t + Fraction(floor((rough - seg_t) * d2), d2)
                             if tail >= p + MIN_GAP:
@@ -153,15 +191,88 @@ def gen_built(rng):
                     free_from[c] = p + ln + MIN_GAP
         if not objs:
             objs.append(["hits", 0, str(Fraction(4 * used[0])), "0"])
-        charts.append(dict(type=typ, desc=rng.choice(DESC_POOL), diff=rng.choice(DIFFS), meter=rng.randrange(1, 36), radar=rng.choice(RADARS), objects=objs))
-    header = {attr: rng.choice(TEXT_POOL) for attr in TEXT_TAGS.values() if attr not in ("bg_changes", "fg_changes", "display_bpm")}
+        if convert and not any(o[1] == keys - 1 for o in objs):
+            # the converters take the chart type from the highest column in use
+            objs.append(["hits", keys - 1, str(Fraction(4 * (floor(free_from[keys - 1] / 4) + 1))), "0"])
+        charts.append(dict(type=typ, desc=rng.choice(DESC_POOL + DESC_EXTRA), diff=rng.choice(DIFFS), meter=rng.randrange(1, 36), radar=rng.choice(RADARS), objects=objs))
+    if not convert and rng.random() < 0.15:
+        # a chart without any object: alone, first, last or in the MIDDLE of the set
+        charts[rng.randrange(len(charts))]["objects"] = []
+    text_pool = TEXT_POOL + TEXT_EXTRA
+    header = {attr: rng.choice(text_pool) for attr in TEXT_TAGS.values() if attr not in ("bg_changes", "fg_changes", "display_bpm")}
     header["display_bpm"] = rng.choice(("", "180", "*"))
-    spec = dict(t0_ms=rng.choice(T0_POOL), tempo=tempo, charts=charts, header=header, sample_start=rng.choice(SAMPLE_MS), sample_length=rng.choice(SAMPLE_MS), on_measure=on_measure, contrast=contrast)
-    if on_measure and len(tempo) > 1 and rng.random() < 0.3:
+    if rng.random() < 0.3:
+        # attributes that are never set keep the defaults of the class
+        for attr in rng.sample(sorted(header), rng.randrange(1, len(header) + 1)):
+            del header[attr]
+    t0_pool = T0_INT if integral else T0_POOL + T0_EXTRA
+    sample_pool = tuple(int(x) for x in SAMPLE_MS) if integral else SAMPLE_MS + SAMPLE_EXTRA
+    spec = dict(t0_ms="0" if convert == "bms" else rng.choice(t0_pool), tempo=tempo, charts=charts, header=header, sample_start=rng.choice(sample_pool), sample_length=rng.choice(sample_pool), on_measure=on_measure, contrast=contrast)
+    if rng.random() < 0.2:
+        spec["sample_defaults"] = True  # sample_start / sample_length never set
+    if len(tempo) > 1 and rng.random() < 0.3:
         order = list(range(len(tempo)))
         rng.shuffle(order)
         spec["tempo_row_order"] = order
+    # rows of every list in any order, under any row labels (as sorted() / append(sort=True) / a filter leave them)
+    spec["rows"] = dict(notes_order=rng.choice(("time", "time", "shuffled", "reversed")), notes_labels=rng.choice(LABELS), tempo_labels=rng.choice(LABELS), seed=rng.randrange(1 << 30))
+    spec["numeric"] = "int" if integral else rng.choice(("float", "float", "numpy"))
     return spec
+
+
+def _label_list(kind, n):
+    if kind == "reversed":
+        return list(range(n - 1, -1, -1))
+    if kind == "gappy":
+        return [5 + 3 * i for i in range(n)]
+    if kind == "permuted":
+        return [(i + n // 2 + 1) % n for i in range(n)] if n > 1 else [0]
+    return list(range(n))
+
+
+def _spec_numbers(spec):
+    """ms_of(beat) and the numeric flavour of the spec: python float (default) / python int / numpy scalars."""
+    import numpy as np
+
+    tempo = [(Fraction(b), Fraction(v)) for b, v in spec["tempo"]]
+    off_s = -Fraction(spec["t0_ms"]) / 1000
+    flavour = spec.get("numeric", "float")
+
+    def ms_of(b):
+        t = beat_to_ms(tempo, off_s, b)
+        if flavour == "int":
+            assert t.denominator == 1, f"int-typed spec with a time that is not a whole ms: {t}"
+            return int(t)
+        return np.float64(float(t)) if flavour == "numpy" else float(t)
+
+    def num(x, integral=False):
+        if flavour == "int" or (integral and flavour != "numpy"):
+            return int(x)
+        if flavour == "numpy":
+            return np.int64(int(x)) if integral else np.float64(float(x))
+        return float(x)
+
+    return tempo, ms_of, num
+
+
+def _dress(lst, rows_spec, n, which, salt):
+    """Row labels of a list as other operations leave them (the rows themselves are already in their order)."""
+    kind = (rows_spec or {}).get(which, "default")
+    if kind != "default" and n:
+        lst.df.index = _label_list(kind, n)
+    return lst
+
+
+def _ordered(rows, rows_spec, salt):
+    import random
+
+    how = (rows_spec or {}).get("notes_order", "time")
+    if how == "reversed":
+        return rows[::-1]
+    if how == "shuffled":
+        rows = list(rows)
+        random.Random((rows_spec.get("seed", 0), salt).__repr__()).shuffle(rows)
+    return rows
 
 
 def build_mapset(spec):
@@ -171,15 +282,12 @@ def build_mapset(spec):
     from reamber.sm.lists.notes import SMFakeList, SMHitList, SMHoldList, SMKeySoundList, SMLiftList, SMMineList, SMRollList
 
     lists = dict(hits=SMHitList, holds=SMHoldList, rolls=SMRollList, mines=SMMineList, lifts=SMLiftList, fakes=SMFakeList, keysounds=SMKeySoundList)
-    tempo = [(Fraction(b), Fraction(v)) for b, v in spec["tempo"]]
-    off_s = -Fraction(spec["t0_ms"]) / 1000
-
-    def ms_of(b):
-        return float(beat_to_ms(tempo, off_s, b))
+    tempo, ms_of, num = _spec_numbers(spec)
+    rows_spec = spec.get("rows")
 
     sms = SMMapSet()
     sms.maps = []
-    for ch in spec["charts"]:
+    for ci, ch in enumerate(spec["charts"]):
         m = SMMap()
         m.chart_type, m.description, m.difficulty, m.difficulty_val = ch["type"], ch["desc"], ch["diff"], ch["meter"]
         m.groove_radar = [float(x) for x in ch["radar"].split(",")]
@@ -189,33 +297,85 @@ def build_mapset(spec):
                 if k != kind:
                     continue
                 p, ln = Fraction(p), Fraction(ln)
-                row = dict(offset=ms_of(p), column=c)
+                row = dict(offset=ms_of(p), column=num(c, True))
                 if kind in ("holds", "rolls"):
                     row["length"] = ms_of(p + ln) - ms_of(p)
                 rows.append(row)
-            setattr(m, kind, cls.from_dict(rows))
+            rows = _ordered(rows, rows_spec, (ci, kind))
+            setattr(m, kind, _dress(cls.from_dict(rows), rows_spec, len(rows), "notes_labels", (ci, kind)))
         metros = spec.get("metronomes") or [4] * len(tempo)
-        bpm_rows = [dict(offset=ms_of(b), bpm=float(v), metronome=float(metros[i])) for i, (b, v) in enumerate(tempo)]
+        bpm_rows = [dict(offset=ms_of(b), bpm=num(v), metronome=num(metros[i])) for i, (b, v) in enumerate(tempo)]
         order = spec.get("tempo_row_order")
         if order and len(order) == len(bpm_rows):
             bpm_rows = [bpm_rows[i] for i in order]  # a chart is a set of timed objects: rows in any order
-        m.bpms = SMBpmList.from_dict(bpm_rows)
+        m.bpms = _dress(SMBpmList.from_dict(bpm_rows), rows_spec, len(bpm_rows), "tempo_labels", (ci, "bpms"))
         sms.maps.append(m)
     for attr, val in spec["header"].items():
         setattr(sms, attr, val)
     sms.offset = ms_of(Fraction(0))
-    sms.sample_start, sms.sample_length = spec["sample_start"], spec["sample_length"]
+    if not spec.get("sample_defaults"):
+        sms.sample_start, sms.sample_length = num(spec["sample_start"]), num(spec["sample_length"])
     return sms
 
 
+def build_converted(spec, source):
+    """The mapset a *ToSM converter makes of a source chart built in memory from the spec (one chart: hits, holds,
+    tempo list; the converter sets the header it knows, the chart type, #OFFSET and the sample window)."""
+    tempo, ms_of, num = _spec_numbers(spec)
+    rows_spec = spec.get("rows")
+    ch = spec["charts"][0]
+    if source == "osu":
+        from reamber.algorithms.convert.OsuToSM import OsuToSM as conv
+        from reamber.osu.OsuMap import OsuMap as M
+        from reamber.osu.lists.OsuBpmList import OsuBpmList as B
+        from reamber.osu.lists.notes.OsuHitList import OsuHitList as H
+        from reamber.osu.lists.notes.OsuHoldList import OsuHoldList as L
+    elif source == "qua":
+        from reamber.algorithms.convert.QuaToSM import QuaToSM as conv
+        from reamber.quaver.QuaMap import QuaMap as M
+        from reamber.quaver.lists.QuaBpmList import QuaBpmList as B
+        from reamber.quaver.lists.notes.QuaHitList import QuaHitList as H
+        from reamber.quaver.lists.notes.QuaHoldList import QuaHoldList as L
+    else:
+        from reamber.algorithms.convert.BMSToSM import BMSToSM as conv
+        from reamber.bms.BMSMap import BMSMap as M
+        from reamber.bms.lists.BMSBpmList import BMSBpmList as B
+        from reamber.bms.lists.notes.BMSHitList import BMSHitList as H
+        from reamber.bms.lists.notes.BMSHoldList import BMSHoldList as L
+    src = M()
+    hits = [dict(offset=ms_of(Fraction(p)), column=num(c, True)) for k, c, p, ln in ch["objects"] if k == "hits"]
+    holds = [dict(offset=ms_of(Fraction(p)), column=num(c, True), length=ms_of(Fraction(p) + Fraction(ln)) - ms_of(Fraction(p))) for k, c, p, ln in ch["objects"] if k == "holds"]
+    hits, holds = _ordered(hits, rows_spec, "hits"), _ordered(holds, rows_spec, "holds")
+    src.hits = _dress(H.from_dict(hits), rows_spec, len(hits), "notes_labels", "hits")
+    src.holds = _dress(L.from_dict(holds), rows_spec, len(holds), "notes_labels", "holds")
+    bpm_rows = [dict(offset=ms_of(b), bpm=num(v)) for b, v in tempo]
+    order = spec.get("tempo_row_order")
+    if order and len(order) == len(bpm_rows):
+        bpm_rows = [bpm_rows[i] for i in order]
+    src.bpms = _dress(B.from_dict(bpm_rows), rows_spec, len(bpm_rows), "tempo_labels", "bpms")
+    title, artist = spec["header"].get("title", ""), spec["header"].get("artist", "")
+    if source == "bms":
+        src.title, src.artist, src.version = b"Escapes", b"Camellia", b"v1"  # BMSToSM transliterates: plain ASCII only
+    else:
+        src.title, src.artist = title, artist
+    if source == "osu":
+        src.preview_time = int(spec["sample_start"])
+    out = conv.convert(src)
+    return out[0] if isinstance(out, list) else out
+
+
 def make_mapset(case):
-    """The in-memory mapset of a case (origin read | built, then selectable, then rate)."""
+    """The in-memory mapset of a case (origin read | built | converted, then selectable, then rate)."""
     from reamber.sm.SMMapSet import SMMapSet
 
     if case["origin"] == "read":
         ms = SMMapSet.read(case["text"] if "text" in case else render(case["spec"]))
+    elif case["origin"] == "converted":
+        ms = build_converted(case["spec"], case["source"])
     else:
         ms = build_mapset(case["spec"])
+    for attr, val in (case.get("header_colon") or {}).items():
+        setattr(ms, attr, val)
     ms.selectable = case["selectable"]
     pre = None
     if abs(float(ms.offset) - map_tempo(ms.maps[0])[0][0]) > 1e-9 or any(map_tempo(m) != map_tempo(ms.maps[0]) for m in ms.maps):
@@ -376,8 +536,77 @@ def same_read_within_grid(a, b):
     return None
 
 
+# another mapset, built and written between two writes of the case's mapset (results must not depend on it)
+OTHER_SPEC = dict(
+    t0_ms="777",
+    tempo=[["0", "200"], ["4", "90"]],
+    charts=[
+        # empty measures 0 and 2, objects of several kinds, two key counts
+        dict(type="dance-solo", desc="other", diff="Hard", meter=9, radar="1,1,1,1,1", objects=[["hits", 5, "4", "0"], ["holds", 2, "9/2", "3/2"], ["mines", 0, "25/4", "0"], ["rolls", 4, "13", "1/3"]]),
+        dict(type="dance-threepanel", desc="other 2", diff="Easy", meter=2, radar="0,0,0,0,0", objects=[["lifts", 2, "8", "0"], ["fakes", 0, "65/7", "0"]]),
+    ],
+    header=dict(title="Other", artist="Somebody else", music="other.ogg"),
+    sample_start=4321.0,
+    sample_length=9000.0,
+    on_measure=True,
+    contrast=False,
+)
+
+
+def _fill_empty_charts(text, snap):
+    """The text with the empty data field of every chart that holds no object in memory replaced by one measure of
+    four empty rows (an empty data field is a chart without rows for StepMania; den_sm wants 4k > 0 rows per measure)."""
+    out, pos, k = [], 0, 0
+    while True:
+        i = text.find("#NOTES:", pos)
+        if i < 0:
+            break
+        j = text.find(";", i)
+        if j < 0:
+            break
+        fields = text[i:j].split(":")
+        if k < len(snap["charts"]) and len(fields) == 7 and not fields[6].strip() and not any(snap["charts"][k]["objects"][kind] for kind in NOTE_KINDS):
+            keys = SM_KEYS.get(fields[1].strip(), 4)
+            fields[6] = "\n" + "\n".join(["0" * keys] * 4) + "\n"
+        out.append(text[pos:i] + ":".join(fields))
+        pos = j
+        k += 1
+    return "".join(out) + text[pos:]
+
+
+def _text_clauses(text, snap, sfx):
+    """The clauses about the written text, interpreted by the StepMania rules."""
+    fails = []
+    try:
+        d = den_sm(_fill_empty_charts(text, snap))
+    except SMFormatError as ex:
+        return [("text_is_valid_sm." + ex.code, str(ex))]
+    for code in sorted({c for c, _ in d["problems"]}):
+        fails.append(("text_is_valid_sm." + code, "; ".join(m for c, m in d["problems"] if c == code)[:300]))
+    if d["stops"]:
+        fails.append(("no_stops_written", f"#STOPS:{d['header'].get('STOPS')}"))
+    for attr, msg in _header_written(snap, d):
+        fails.append(("header_written." + attr, msg))
+    return fails + _compare_charts(snap, d, sfx)
+
+
+def _snapshot_diff(a, b):
+    if a == b:
+        return None
+    for k in a:
+        if k != "charts" and a[k] != b[k]:
+            return f"{k}: {a[k]!r} before, {b[k]!r} after write()"
+    for i, (x, y) in enumerate(zip(a["charts"], b["charts"])):
+        for k in x:
+            if x[k] != y[k]:
+                return f"chart {i} {k}: {str(x[k])[:200]} before, {str(y[k])[:200]} after write()"
+    return f"{len(a['charts'])} charts before, {len(b['charts'])} after write()"
+
+
 def run_write_case(case):
     """Real write() of the case's mapset against den_sm and the re-read clauses: [(what, detail)]."""
+    from pathlib import Path
+
     from reamber.sm.SMMapSet import SMMapSet
 
     fails = []
@@ -395,26 +624,32 @@ def run_write_case(case):
         except Exception as ex:
             return fails + [("write_completes", f"write() raised {type(ex).__name__}: {ex}")]
         # ---- the text, by the StepMania rules
-        try:
-            d = den_sm(text)
-        except SMFormatError as ex:
-            d = None
-            fails.append(("text_is_valid_sm." + ex.code, str(ex)))
-        if d is not None:
-            for code in sorted({c for c, _ in d["problems"]}):
-                fails.append(("text_is_valid_sm." + code, "; ".join(m for c, m in d["problems"] if c == code)[:300]))
-            if d["stops"]:
-                fails.append(("no_stops_written", f"#STOPS:{d['header'].get('STOPS')}"))
-            for attr, msg in _header_written(snap, d):
-                fails.append(("header_written." + attr, msg))
-            fails += _compare_charts(snap, d, sfx)
+        fails += _text_clauses(text, snap, sfx)
+        # ---- the mapset after writing; a second write (after another mapset has been written)
+        diff = _snapshot_diff(snap, snapshot(ms))
+        if diff:
+            fails.append(("write_leaves_mapset_unchanged", diff))
+        elif case.get("sequence"):
+            try:
+                if case["sequence"] == "other_mapset_between":
+                    build_mapset(OTHER_SPEC).write()
+                text2 = ms.write()
+            except Exception as ex:
+                text2 = None
+                fails.append(("second_write_denotes_the_mapset", f"raised {type(ex).__name__}: {ex}"))
+            if text2 is not None and text2 != text:
+                held = {w for w, _ in fails}
+                new = [(w, d) for w, d in _text_clauses(text2, snap, sfx) if w not in held]
+                if new:
+                    fails.append(("second_write_denotes_the_mapset", f"{new[0][0]} - {new[0][1]}"))
         # ---- read back by reamber
         try:
             r1 = SMMapSet.read(text)
         except Exception as ex:
             return fails + [("reread_completes", f"read(write(ms)) raised {type(ex).__name__}: {ex}")]
+        colon = case.get("header_colon") or {}
         for attr, msg in _header_read_back(snap, r1):
-            fails.append(("header_read_back." + attr, msg))
+            fails.append((("header_read_back_colon." if attr in colon else "header_read_back.") + attr, msg))
         try:
             r2 = SMMapSet.read(r1.write())
         except Exception as ex:
@@ -431,7 +666,7 @@ def run_write_case(case):
             fd, path = tempfile.mkstemp(suffix=".sm")
             os.close(fd)
             try:
-                ms.write_file(path)
+                ms.write_file(Path(path) if case["entry_points"] == "Path" else path)
                 with open(path, "r", encoding="utf8", newline="") as f:
                     stored = f.read()
             finally:
@@ -450,26 +685,52 @@ def _nontrivial(case):
     return sum(len(c["objects"]) for c in case["spec"]["charts"]) >= 3
 
 
-@bounded("C03", note="in-memory mapsets (read from generated .sm files, built list by list, optionally rated, selectable False/True) written by the real SMMapSet.write and interpreted by the exact-rational format interpreter den_sm; header read-back and re-read stability through the real reader")
+def gen_write_case(rng, i):
+    r = rng.random()
+    case = dict(origin="read" if r < 0.3 else ("converted" if r < 0.45 else "built"))
+    if case["origin"] == "read":
+        spec = gen_spec(rng, "plain", types=WRITE_TYPES)
+        while not spec["charts"]:  # a file without charts has no tempo list to share: outside the domain
+            spec = gen_spec(rng, "plain", types=WRITE_TYPES)
+    elif case["origin"] == "converted":
+        case["source"] = rng.choice(CONVERT_SOURCES)
+        spec = gen_built(rng, integral=rng.random() < 0.3, convert=case["source"])
+    else:
+        spec = gen_built(rng, integral=rng.random() < 0.2)
+    case.update(selectable=rng.random() >= 0.4, rate=rng.choice(RATES) if rng.random() < 0.4 else None, entry_points=rng.choice(("str", "Path")) if i % 4 == 0 else False, spec=spec)
+    case["sequence"] = rng.choice((None, None, "write_twice", "other_mapset_between"))
+    if case["origin"] == "built" and rng.random() < 0.1:
+        attrs = [a for a in TEXT_TAGS.values() if a not in ("bg_changes", "fg_changes", "display_bpm")]
+        case["header_colon"] = {a: rng.choice(TEXT_COLON) for a in rng.sample(attrs, rng.choice((1, 1, 2)))}
+    return case
+
+
+@bounded("C03", note="in-memory mapsets (read from generated .sm files, built list by list, made by the osu / Quaver / BMS -> SM converters; optionally rated, selectable False/True) written by the real SMMapSet.write and interpreted by the exact-rational format interpreter den_sm; header read-back and re-read stability through the real reader; mapset unchanged by writing, second write after another mapset")
 def sm_write_vs_interpreter(rep):
     rng = rep.rng
     N = rep.n(150, 2000)
     rep.bound = (
-        f"{N} seeded mapsets: 35% read from a generated file (1-3 charts, rows {{4..192}}, 0-4 tempo changes incl. mid-measure, `#STOPS:;`), 65% built in memory "
-        "(1-2 charts sharing 1-4 tempo points, half of them with every change on a measure line, half anywhere on the grid - of these 40% alternate 60 / 333 bpm with an object shortly after each change; objects of all 7 kinds at segment start + k/d beats, "
-        f"d from {list(COARSE)} and, in 35% of the measures, also {list(FINE)} so that the measure needs > 384 rows; 0-3 leading and intermediate empty measures); "
-        f"40% of all then rated by one of {list(RATES)}; selectable False in 40%; chart types {list(WRITE_TYPES)}"
+        f"{N} seeded mapsets: 30% read from a generated file (1-3 charts, rows {{4..192}}, 0-4 tempo changes incl. mid-measure, `#STOPS:;`), 55% built in memory "
+        "(1-3 charts sharing 1-4 tempo points, half of them with every change on a measure line, half anywhere on the grid - of these 40% alternate 60 / 333 bpm with an object shortly after each change; objects of all 7 kinds at segment start + k/d beats, "
+        f"d from {list(COARSE)} and, in 35% of the measures, also {list(FINE)} so that the measure needs > 384 rows, in 20% of the measures one of {list(ODD)} with one small denominator so that the measure has 20..384 rows; 0-3 leading and intermediate empty measures; in 15% one chart (alone / first / middle / last) without any object; "
+        "rows of every note list in time order / shuffled / reversed and tempo rows in any order (30%), row labels of note and tempo lists default / reversed / gappy / permuted; 20% with whole-ms times built from python ints (int64 columns), "
+        f"a third of the others from numpy scalars; #OFFSET from {list(T0_POOL + T0_EXTRA)}; header text incl. non-ASCII, tab / NBSP / U+3000, '#', '=', ','; in 30% some header attributes (20%: the sample window) left at the class defaults; "
+        f"in 10% one or two header texts with a ':'), 15% made by {list(CONVERT_SOURCES)} -> SM converters from a source chart built in memory (3 / 4 / 6 / 7 / 8 keys, hits and holds); "
+        f"40% of all then rated by one of {list(RATES)}; selectable False in 40%; chart types {list(WRITE_TYPES)}; every case: the mapset compared before / after write(); 50%: a second write(), half of them after another mapset was built and written; "
+        "25%: write_file with a str / pathlib.Path"
     )
     rep.rule = "a case is one mapset; non-trivial when read from a file or holding at least 3 objects"
     kinds = {}
     for i in range(N):
         if rep.out_of_time(35, 600):
             break
-        origin = "read" if rng.random() < 0.35 else "built"
-        spec = gen_spec(rng, "plain", types=WRITE_TYPES) if origin == "read" else gen_built(rng)
-        case = dict(origin=origin, selectable=rng.random() >= 0.4, rate=rng.choice(RATES) if rng.random() < 0.4 else None, entry_points=i % 10 == 0, spec=spec)
+        case = gen_write_case(rng, i)
+        origin, spec = case["origin"], case["spec"]
         key = origin + ("+rate" if case["rate"] else "") + ("" if origin == "read" else ("/on_measure" if spec["on_measure"] else "/off_measure"))
         kinds[key] = kinds.get(key, 0) + 1
+        for flag, on in (("empty_chart", origin != "read" and any(not c["objects"] for c in spec["charts"])), ("int_typed", spec.get("numeric") == "int"), ("header_colon", bool(case.get("header_colon"))), ("rows_not_in_time_order", origin != "read" and spec["rows"]["notes_order"] != "time"), ("labels_not_default", origin != "read" and (spec["rows"]["notes_labels"] != "default" or spec["rows"]["tempo_labels"] != "default"))):
+            if on:
+                kinds[flag] = kinds.get(flag, 0) + 1
         rep.case(case, nontrivial=_nontrivial(case))
         fails = run_write_case(case)
         if fails:
